@@ -38,7 +38,7 @@ GRAPH = {
     "quick": [(4, '"zero", "tmpl"', 1, "TRUE", NOSUBS, PLAIN)],
     "thorough": [
         (4, '"zero", "sym", "num", "tmpl"', 3, "TRUE", NOSUBS, BOTH),
-        (3, '"zero", "sym", "num", "tmpl"', 3, "TRUE", NOSUBS[:-1] + ', "subs"', BOTH),
+        (3, '"zero", "sym", "num", "tmpl"', 3, "TRUE", NOSUBS + ', "subs"', BOTH),
         (5, '"zero"', 3, "TRUE", NOSUBS, PLAIN),
     ],
 }
